@@ -19,7 +19,11 @@ All of these raise `GraphConfigError`.  `buildGraphOld` is the behaviour before 
 raw `networkx.NetworkXError` escaped the constructor.  Two further repaired defects keep their
 pre-repair check for a negative witness: `chkTypesAllEdges` (strict typing also visited the ordering
 edges; constructor `buildGraphAllEdges`) and `chkIdentifiersSkipGraph` (the output names of a
-nested-graph node were not validated; constructor `buildGraphSkipGraph`).
+nested-graph node were not validated; constructor `buildGraphSkipGraph`).  The repair "two producers of
+one name are exclusive only if neither can run without its branch" (`d3b936a`) keeps the pre-repair
+branch sets (`exclSetsReach` / `expandedGroupsReach`: every node reachable from one target only) and the
+constructor using them (`buildGraphMutexReach`); the repair "strict_types checks every producer of a value
+against its consumer" (`9cb1903`) keeps `chkTypesFirstProducer` (constructor `buildGraphFirstProducer`).
 
 ## What is data of the model and what is a precondition (node-level constructors, not `Graph`)
 The input is the list of *elaborated* nodes (`NodeD`, what `Graph` reads off each `HyperNode`).  The
@@ -39,8 +43,11 @@ closed universe with structural equality — Python's `1 == True` is NOT modelle
   (`HG.Build.reachSet`; proved equal to the reflexive-transitive closure in `HG.Lemmas.Build`).
 * `_compute_exclusive_reachability` counts with a `Counter` over the per-target reachable sets; a node
   has count 1 and lies in `reachable[t]` iff it is reachable from `t` and from no *other* target —
-  that is how `exclSets` computes it.  `_is_pair_mutex` compares branch indices; the branches of one
-  gate are pairwise disjoint, so "different index" = "different target name".
+  that is how `exclSetsReach` computes the CANDIDATES.  The branch of `t` is then grown from `{t}` by
+  `_dependent_on_branch` (`branchOf`): the `while grew` loop adds one candidate at a time in sorted
+  order, `branchRounds` adds per round every candidate that needs the current set; `needs` is monotone
+  in the set, both reach the least fixpoint and only membership is ever read (`pairMutexIn`).
+  `_is_pair_mutex` compares branch indices; "different index" = "different target name".
 * `_build_full_edge_map` is evaluated pointwise (`keptAdj u v` = "the pair `(u, v)` survives in the
   sub-graph of `_is_pair_ordered`") instead of materialising the dictionary.
 -/
@@ -217,17 +224,72 @@ def exclusiveGate (g : NodeD) : Bool := (g.kind == .route && !g.multiTarget) || 
 /-- `[t for t in node.targets if t is not END and isinstance(t, str) and t in G]` -/
 def knownTargets (V : List Name) (g : NodeD) : List Name := g.targetNames.filter fun t => V.contains t
 
-/-- `_compute_exclusive_reachability`: target ↦ nodes reachable from it and from no other target -/
-def exclSets (V : List Name) (adj : Name → Name → Bool) (T : List Name) : List (Name × List Name) :=
+/-- the CANDIDATES of `_compute_exclusive_reachability`: target ↦ nodes reachable from it and from no
+other target.  Before the repair "two producers of one name are exclusive only if neither can run
+without its branch" this WAS the branch of the target (pre-repair, not part of `checks`: kept for the
+negative witnesses `HG.C19s.shared_target_not_mutex_witness` / `default_fed_not_mutex_witness`). -/
+def exclSetsReach (V : List Name) (adj : Name → Name → Bool) (T : List Name) : List (Name × List Name) :=
   let rs := T.map fun t => (t, reachSet V adj t V.length)
   rs.map fun tr => (tr.1, tr.2.filter fun v => rs.all fun tr' => tr'.1 == tr.1 || !tr'.2.contains v)
+
+/-- pre-repair `_expand_mutex_groups` (not part of `checks`) -/
+def expandedGroupsReach (nodes : List NodeD) (V : List Name) (adj : Name → Name → Bool) :
+    List (List (Name × List Name)) :=
+  (nodes.filter exclusiveGate).filterMap fun g =>
+    let T := knownTargets V g
+    if T.length < 2 then none else some (exclSetsReach V adj T)
+
+/-- `_controllers_of(name, node_map)`: the names of the gates listing `n` among their targets
+(`name in g.targets`; `END` is not a string, `targetNames` drops it) -/
+def controllersOf (nodes : List NodeD) (n : Name) : List Name :=
+  (nodes.filter fun g => g.isGate && g.targetNames.contains n).map (·.name)
+
+/-- `needs(name, branch)` of `_dependent_on_branch`: the node `m` cannot start unless the branch `B` ran —
+(a) a parameter WITHOUT a default of its own (`has_default_for`) whose producers exist and all lie in `B`,
+(b) an awaited signal whose producers exist and all lie in `B`, or (c) `m` is a gate target and every gate
+routing to it lies in `B`.  (`node_map[name]` is "the node called `m`"; node names are pairwise different
+when this check runs — `chkDuplicateNodes` precedes it — so `nodes.any` over the nodes called `m` is the
+same lookup.) -/
+def needsBranch (nodes : List NodeD) (B : List Name) (m : Name) : Bool :=
+  (nodes.any fun nd => nd.name == m &&
+    ((nd.inputs.any fun p =>
+        !(sourcesOf nodes p).isEmpty && (sourcesOf nodes p).all (fun s => B.contains s) &&
+          !nd.hasDefault.contains p) ||
+      nd.waitFor.any fun w =>
+        !(sourcesOf nodes w).isEmpty && (sourcesOf nodes w).all fun s => B.contains s)) ||
+    (!(controllersOf nodes m).isEmpty && (controllersOf nodes m).all fun c => B.contains c)
+
+/-- one round of the `while grew` loop of `_dependent_on_branch`: the candidates already in `D` and those
+that need `{t} ∪ D` -/
+def branchStep (nodes : List NodeD) (t : Name) (cand D : List Name) : List Name :=
+  cand.filter fun m => D.contains m || needsBranch nodes (t :: D) m
+
+/-- the `while grew` loop of `_dependent_on_branch`, by rounds: the candidates added to `{t}` after at
+most `k` rounds, a round adding EVERY candidate that needs the current branch.  (The code adds them one
+at a time in sorted order; `needs` is monotone in the branch, so both compute the least set closed under
+"a candidate that needs the set is in the set" — `HG.Build.mem_branchOf_iff`.) -/
+def branchRounds (nodes : List NodeD) (t : Name) (cand : List Name) : Nat → List Name
+  | 0 => []
+  | k + 1 => branchStep nodes t cand (branchRounds nodes t cand k)
+
+/-- `_dependent_on_branch(target, candidates, gate, …)`: empty when a gate other than `gate` also routes
+to `t` (`_controllers_of(target) - {gate}` non-empty); otherwise `t` and every candidate that transitively
+needs it.  `cand.length` rounds reach the fixpoint (each productive round adds a candidate). -/
+def branchOf (nodes : List NodeD) (gate t : Name) (cand : List Name) : List Name :=
+  if (controllersOf nodes t).all (· == gate) then t :: branchRounds nodes t cand cand.length else []
+
+/-- `_compute_exclusive_reachability(G, T, gate=…, node_map=…, output_to_sources=…)`: target ↦ the nodes
+that run ONLY when `gate` chose that target -/
+def exclSets (nodes : List NodeD) (V : List Name) (adj : Name → Name → Bool) (gate : Name) (T : List Name) :
+    List (Name × List Name) :=
+  (exclSetsReach V adj T).map fun tc => (tc.1, branchOf nodes gate tc.1 tc.2)
 
 /-- `_expand_mutex_groups` -/
 def expandedGroups (nodes : List NodeD) (V : List Name) (adj : Name → Name → Bool) :
     List (List (Name × List Name)) :=
   (nodes.filter exclusiveGate).filterMap fun g =>
     let T := knownTargets V g
-    if T.length < 2 then none else some (exclSets V adj T)
+    if T.length < 2 then none else some (exclSets nodes V adj g.name T)
 
 def pairMutexIn (branches : List (Name × List Name)) (a c : Name) : Bool :=
   branches.any fun b1 => branches.any fun b2 => b1.1 != b2.1 && b1.2.contains a && b2.2.contains c
@@ -313,12 +375,14 @@ def chkExplicitEdges (b : BuildInput) : Option BuildErr :=
   | none => none
   | some es => es.findSome? (chkEdge b.nodes)
 
-/-- `validate_output_conflicts` -/
-def chkOutputConflicts (b : BuildInput) : Option BuildErr :=
+/-- `validate_output_conflicts`, the mutex groups computed by `groupsOf` -/
+def chkOutputConflictsWith
+    (groupsOf : List NodeD → List Name → (Name → Name → Bool) → List (List (Name × List Name)))
+    (b : BuildInput) : Option BuildErr :=
   let V := nodeNames b
   let es := graphEdges b
   let gRows := adjRows V (hasEdge es)
-  let groups := expandedGroups b.nodes V (rowsAdj gRows)
+  let groups := groupsOf b.nodes V (rowsAdj gRows)
   (graphOutputs b.nodes).findSome? fun o =>
     let S := sourcesOf b.nodes o
     if S.length < 2 then none
@@ -328,6 +392,15 @@ def chkOutputConflicts (b : BuildInput) : Option BuildErr :=
         if isPairMutex groups ac.1 ac.2 || reaches V (rowsAdj oRows) ac.1 ac.2
             || reaches V (rowsAdj oRows) ac.2 ac.1 then none
         else some (.outputConflict o ac.1 ac.2)
+
+/-- `validate_output_conflicts` -/
+def chkOutputConflicts (b : BuildInput) : Option BuildErr := chkOutputConflictsWith expandedGroups b
+
+/-- `validate_output_conflicts` before the repair "two producers of one name are exclusive only if neither
+can run without its branch": the branch of a gate target was every node reachable from that target only
+(kept for the negative witnesses `HG.C19s.shared_target_not_mutex_witness`,
+`default_fed_not_mutex_witness`, `loop_back_branches_now_mutex_witness`; not part of `checks`) -/
+def chkOutputConflictsReach (b : BuildInput) : Option BuildErr := chkOutputConflictsWith expandedGroupsReach b
 
 /-- `_validate_graph_name` -/
 def chkGraphName (b : BuildInput) : Option BuildErr :=
@@ -450,19 +523,51 @@ def chkWaitFor (b : BuildInput) : Option BuildErr :=
   b.nodes.findSome? fun nd => nd.waitFor.findSome? fun w =>
     if (b.nodes.any fun p => p.outputs.contains w) then none else some (.waitForUnknown nd.name w)
 
+/-- one triple `(source_name, target_name, value_name)` of the list `checked` of `_validate_types`: both
+annotations present and compatible -/
+def chkTypesTriple (b : BuildInput) (src dst v : Name) : Option BuildErr :=
+  match outType b src v with
+  | none => some (.missingOutputAnnotation src v)
+  | some to =>
+    match inType b dst v with
+    | none => some (.missingInputAnnotation dst v)
+    | some ti => if compat to ti then none else some (.typeMismatch src dst v)
+
+/-- the values of one edge against the edge's own source only -/
 def chkTypesEdge (b : BuildInput) (e : Edge) : Option BuildErr :=
-  e.values.findSome? fun v =>
-    match outType b e.src v with
-    | none => some (.missingOutputAnnotation e.src v)
-    | some to =>
-      match inType b e.dst v with
-      | none => some (.missingInputAnnotation e.dst v)
-      | some ti => if compat to ti then none else some (.typeMismatch e.src e.dst v)
+  e.values.findSome? fun v => chkTypesTriple b e.src e.dst v
+
+/-- `producers[v]` of `_validate_types`: the nodes listing `v` among their `data_outputs` (emit-only
+outputs are not data), in node order -/
+def dataSourcesOf (nodes : List NodeD) (v : Name) : List Name :=
+  (nodes.filter fun n => n.dataOuts.contains v).map (·.name)
+
+/-- the sources `checked` lists for the value `v` on the edge `e`: the edge's own source first, then every
+OTHER data producer of `v` (`other not in (source_name, target_name)`) in node order -/
+def typeSourcesFor (b : BuildInput) (e : Edge) (v : Name) : List Name :=
+  e.src :: (dataSourcesOf b.nodes v).filter fun o => o != e.src && o != e.dst
+
+/-- the values of one edge against EVERY producer that can deliver them to the edge's target -/
+def chkTypesEdgeProducers (b : BuildInput) (e : Edge) : Option BuildErr :=
+  e.values.findSome? fun v => (typeSourcesFor b e v).findSome? fun s => chkTypesTriple b s e.dst v
 
 /-- `_validate_types`: every edge with `value_names` EXCEPT the ordering edges (`edge_type ==
 "ordering"`, which `_add_ordering_edges` labels with the awaited name): no value reaches a parameter
-through an ordering edge, there is nothing to type -/
+through an ordering edge, there is nothing to type.  The built graph links a consumer to the FIRST-listed
+producer of a name only; every other data producer of the value is checked against the consumer as well
+(repair "strict_types checks every producer of a value against its consumer", `9cb1903`).  The code first
+collects the triples (per edge in `G.edges` order, per value: the edge's own, then the other producers in
+node order) and then checks them in that order: the nested `findSome?` visits them in the same order. -/
 def chkTypes (b : BuildInput) : Option BuildErr :=
+  if b.strict then
+    (nxOrder b.nodes (graphEdges b)).findSome? fun e =>
+      if e.kind == .ordering then none else chkTypesEdgeProducers b e
+  else none
+
+/-- `_validate_types` before the repair "strict_types checks every producer of a value against its
+consumer": the data edges of the built graph only, i.e. the first-listed producer of each name (kept for
+the negative witness `HG.C19s.strict_second_producer_witness`; not part of `checks`) -/
+def chkTypesFirstProducer (b : BuildInput) : Option BuildErr :=
   if b.strict then
     (nxOrder b.nodes (graphEdges b)).findSome? fun e =>
       if e.kind == .ordering then none else chkTypesEdge b e
@@ -470,7 +575,8 @@ def chkTypes (b : BuildInput) : Option BuildErr :=
 
 /-- `_validate_types` before the repair "strict typing skips ordering edges": every edge with
 `value_names`, data edges AND ordering edges, so every strict graph with an emit / wait_for pair was
-rejected (kept for the negative witness `HG.C19s.strict_wait_for_witness`; not part of `checks`) -/
+rejected — and, like `chkTypesFirstProducer`, the first-listed producer only (kept for the negative witness
+`HG.C19s.strict_wait_for_witness`; not part of `checks`) -/
 def chkTypesAllEdges (b : BuildInput) : Option BuildErr :=
   if b.strict then (nxOrder b.nodes (graphEdges b)).findSome? (chkTypesEdge b) else none
 
@@ -517,6 +623,20 @@ def checksDupOutputs : List (BuildInput → Option BuildErr) :=
    chkGateTargets, chkGateSelfLoop, chkMultiTarget, chkInterruptInMap, chkCacheOnGraphNode,
    chkWaitFor, chkTypes]
 
+/-- the same with the pre-repair mutex expansion (a branch = everything reachable from one target only) -/
+def checksMutexReach : List (BuildInput → Option BuildErr) :=
+  [chkDuplicateNodes, chkExplicitEdges, chkOutputConflictsReach,
+   chkGraphName, chkReservedNames, chkIdentifiers, chkDistinctOutputs, chkNamespaceCollision, chkConsistentDefaults,
+   chkGateTargets, chkGateSelfLoop, chkMultiTarget, chkInterruptInMap, chkCacheOnGraphNode,
+   chkWaitFor, chkTypes]
+
+/-- the same with the pre-repair `_validate_types` (first-listed producer of each value only) -/
+def checksFirstProducer : List (BuildInput → Option BuildErr) :=
+  [chkDuplicateNodes, chkExplicitEdges, chkOutputConflicts,
+   chkGraphName, chkReservedNames, chkIdentifiers, chkDistinctOutputs, chkNamespaceCollision, chkConsistentDefaults,
+   chkGateTargets, chkGateSelfLoop, chkMultiTarget, chkInterruptInMap, chkCacheOnGraphNode,
+   chkWaitFor, chkTypesFirstProducer]
+
 def runChecks (cs : List (BuildInput → Option BuildErr)) (b : BuildInput) : Except BuildErr Unit :=
   match cs.findSome? fun c => c b with
   | some e => .error e
@@ -537,6 +657,13 @@ def buildGraphSkipGraph (b : BuildInput) : Except BuildErr Unit := runChecks che
 /-- the constructor before the repair "a node cannot declare one output name twice" -/
 def buildGraphDupOutputs (b : BuildInput) : Except BuildErr Unit := runChecks checksDupOutputs b
 
+/-- the constructor before the repair "two producers of one name are exclusive only if neither can run
+without its branch" -/
+def buildGraphMutexReach (b : BuildInput) : Except BuildErr Unit := runChecks checksMutexReach b
+
+/-- the constructor before the repair "strict_types checks every producer of a value against its consumer" -/
+def buildGraphFirstProducer (b : BuildInput) : Except BuildErr Unit := runChecks checksFirstProducer b
+
 /-- `"ok"` or the flaw class of the first error -/
 def classify (b : BuildInput) : String :=
   match buildGraph b with
@@ -555,6 +682,16 @@ def classifyAllEdges (b : BuildInput) : String :=
 
 def classifySkipGraph (b : BuildInput) : String :=
   match buildGraphSkipGraph b with
+  | .ok _ => "ok"
+  | .error e => e.className
+
+def classifyMutexReach (b : BuildInput) : String :=
+  match buildGraphMutexReach b with
+  | .ok _ => "ok"
+  | .error e => e.className
+
+def classifyFirstProducer (b : BuildInput) : String :=
+  match buildGraphFirstProducer b with
   | .ok _ => "ok"
   | .error e => e.className
 
